@@ -63,15 +63,20 @@ class Report:
         failed = [o for o in self.obs if o['verdict'] == 'FAILED']
         kn = [k for k in known.get('known', []) if k.get('property') == self.pid]
         unknown = []
+        printed = set()
         for o in failed:
             hit = None
+            # the same finding seen under another build configuration of the thorough tier carries a '[variant] ' prefix
+            inst = _re.sub(r'^\[[\w.+-]+\] ', '', o['instance'])
             for k in kn:
-                if k.get('clause') == o['clause'] and k.get('instance') == o['instance']:
+                if k.get('clause') == o['clause'] and k.get('instance') == inst:
                     hit = k
                     break
             if hit:
                 o['verdict'] = 'KNOWN-FINDING'
-                print('KNOWN-FINDING: property=%s %s' % (self.pid, hit.get('what', o['instance'])))
+                if id(hit) not in printed:
+                    printed.add(id(hit))
+                    print('KNOWN-FINDING: property=%s %s' % (self.pid, hit.get('what', o['instance'])))
             else:
                 unknown.append(o)
         out = sys.stdout
